@@ -145,6 +145,11 @@ class Model:
                 hooks["call:" + nm] = mk2(fn, want)
         for nm, fn in self.tso_ctor.items():
             hooks["call:TextSelectionOperator::" + nm] = mk(fn)
+        for f2 in self.syn.fns:
+            if f2.file == self.f["dop_to_string"].file and f2.self_ty is None and f2.trait is None and f2.body is not None and ("call:" + f2.name) not in hooks:
+                hooks["call:" + f2.name] = mk(f2)
+        hooks["contains"] = lambda ev, recv, args, node, env: (args[0] in recv) if isinstance(recv, str) and len(args) == 1 and isinstance(args[0], str) else NotImplemented
+        hooks["is_finite"] = lambda ev, recv, args, node, env: (recv == recv and recv not in (float("inf"), float("-inf"))) if isinstance(recv, float) else NotImplemented
         hooks["call:Cursor::try_from"] = lambda ev, recv, args, node, env: call(self.cursor_from[0] if is_str(args[0]) else self.cursor_from_isize[0], args)
         hooks["call:Cursor::from"] = lambda ev, recv, args, node, env: call(self.cursor_from_usize[0], args)
         def h_radix(signed):
@@ -322,18 +327,41 @@ class Model:
         hooks["push"] = h_push
         hooks["push_str"] = h_push
 
+        # ---- Display / Debug of f64 as Rust prints them
+        def f64_plain(v):
+            from decimal import Decimal
+            d = format(Decimal(repr(float(v))), "f")
+            if "." in d:
+                d = d.rstrip("0").rstrip(".") if d.rstrip("0").rstrip(".") not in ("", "-") else "0"
+            return d
+
+        def f64_display(v):
+            if v != v:
+                return "NaN"
+            if v in (float("inf"), float("-inf")):
+                return "inf" if v > 0 else "-inf"
+            return f64_plain(v)           # Display never uses an exponent
+
+        def f64_debug(v):
+            if v != v or v in (float("inf"), float("-inf")):
+                return f64_display(v)
+            a = abs(v)
+            if v == 0 or 1e-5 <= a < 1e16:
+                p_ = f64_plain(v)
+                return p_ if "." in p_ else p_ + ".0"
+            from decimal import Decimal
+            sign, digits, exp = Decimal(repr(float(v))).normalize().as_tuple()
+            ds = "".join(str(x) for x in digits)
+            e10 = exp + len(ds) - 1
+            return ("-" if sign else "") + ds[0] + ("." + ds[1:] if len(ds) > 1 else "") + "e" + str(e10)
+        self.f64_display, self.f64_debug = f64_display, f64_debug
+
         # ---- Display
         def display(v):
             if isinstance(v, bool):
                 return "true" if v else "false"
             if isinstance(v, float):
-                if v != v:
-                    return "NaN"
-                if v in (float("inf"), float("-inf")):
-                    return "inf" if v > 0 else "-inf"
-                if v == int(v) and abs(v) < 1e16:
-                    return str(int(v))
-                return repr(v)
+                return f64_display(v)
             if isinstance(v, int):
                 return str(int(v))
             if isinstance(v, str):
@@ -383,7 +411,7 @@ class Model:
                         k += 1
                     if f_ == "?":
                         if isinstance(val, float):
-                            out.append("NaN" if val != val else ("inf" if val > 0 else "-inf") if val in (float("inf"), float("-inf")) else repr(val))
+                            out.append(f64_debug(val))
                         elif isinstance(val, int) and not isinstance(val, bool):
                             out.append(str(int(val)))
                         else:
@@ -506,7 +534,7 @@ def grid(model):
             EnumVal("Equals", ["true"]), EnumVal("Equals", ["null"]), EnumVal("Equals", ["any"]), EnumVal("Equals", ["3"]), EnumVal("Equals", ["2.5"]), EnumVal("Equals", ["T10"]), EnumVal("Equals", [""]),
             EnumVal("Not", [EnumVal("Equals", ["false"])]),
             # floats with an integral value, strings with the list separator
-            EnumVal("EqualsFloat", [1.0]), EnumVal("GreaterThanFloat", [3.0]), EnumVal("LessThanOrEqualFloat", [-2.0]), EnumVal("Equals", ["a|b"])]
+            EnumVal("EqualsFloat", [1.0]), EnumVal("GreaterThanFloat", [3.0]), EnumVal("EqualsFloat", [0.000001]), EnumVal("LessThanFloat", [1.5e20]), EnumVal("GreaterThanOrEqualFloat", [-2.5e-7]), EnumVal("LessThanOrEqualFloat", [-2.0]), EnumVal("Equals", ["a|b"])]
     tsos = []
     for name, fn in sorted(model.tso_ctor.items()):
         try:
